@@ -15,14 +15,23 @@ What is proved here (for all tables, all words):
   table of the orbit (`intersection_spec`, `core_spec`);
 * the model of `stabilizer` returns generators that fix the base row
   (`stabilizer_gens_fix_base`).
-Not proved (Spec only, see conf/C13.json): the returned generators generate the whole
-stabiliser and the returned relators present it (Reidemeister–Schreier with the code's
-relator-driven elimination).
+* the returned generators generate the **full** stabiliser of the base row in
+  `⟨1..n | rels⟩` acting on the table (`stabilizer_generates`, Schreier's lemma), and the
+  returned relators hold, so the returned presentation maps onto the stabiliser
+  (`stabilizer_relators_hold`);
+* totality: the three models return a result on every valid input — no modelled panic, no
+  exhausted fuel (`stabilizer_total`, `intersection_total`, `core_total`).
+Not proved (Spec only, see conf/C13.json): injectivity of the map from the returned presentation
+onto the stabiliser (the Reidemeister–Schreier theorem for the code's relator-driven
+elimination), i.e. the word "isomorphic".
 -/
 import DSymVerif.Model.Stabilizer
 import DSymVerif.Proofs.StabilizerProduct
 import DSymVerif.Proofs.StabilizerGens
 import DSymVerif.Proofs.StabilizerCore
+import DSymVerif.Proofs.StabilizerTotal
+import DSymVerif.Proofs.StabilizerPresentation
+import DSymVerif.Proofs.StabilizerTerminates
 
 namespace DSymVerif.C13
 open DSymVerif DSymVerif.SpecC11 DSymVerif.SpecC13 DSymVerif.StabP DSymVerif.CosetP DSymVerif.Cosets
@@ -274,6 +283,68 @@ theorem stabilizer_gens_fix_base (t : Tab) (n : Nat) (hcomp : complete t n = tru
     (h : Stab.stabilizer base rels (Table.ofView n t) = .ok (gens, srels)) :
     ∀ w ∈ gens, traceWord t n base w = some base :=
   stabilizer_gens_fix hcomp (inverseConsistent_spec hinv) h
+
+/-- ✔ `stabilizer_generates`.  For a table passing the Spec of C11 (`validTable`: complete,
+    inverse-consistent, every relator closes at every row, transitive), the presented group
+    `G = ⟨1..n | rels⟩` acts on the rows (`actionHom`, C11).  Whenever the model of `stabilizer`
+    returns `(gens, srels)` for a base row, the subgroup of `G` generated by the returned generator
+    words is **exactly the stabiliser of the base row** (Schreier's lemma: tree edges give the
+    identity, every other edge word — a returned generator or a word deduced by
+    `close_relations_in_place` from a relator cycle with one unknown edge — spells the Schreier
+    element `u_x · g · u_{x·g}⁻¹` of its edge, and every edge ends up with a word). -/
+theorem stabilizer_generates (t : Tab) (n : Nat) (rels : List (List Int))
+    (hvalid : validTable t n rels [] = true) (base : Nat) (hb : base < t.size)
+    (gens srels : List (List Int))
+    (h : Stab.stabilizer base rels (Table.ofView n t) = .ok (gens, srels)) :
+    Subgroup.closure {x : PresentedGroup (relSet n rels) |
+        ∃ w ∈ gens, x = PresentedGroup.mk (relSet n rels) (wordElt n w)} =
+      (MulAction.stabilizer (Equiv.Perm (Fin t.size)) (⟨base, hb⟩ : Fin t.size)).comap
+        (actionHom (valid_of_validTable hvalid)) :=
+  genSubgroup_eq_stabOf (complete_of_validTable hvalid) (valid_of_validTable hvalid) hb h
+
+/-- ✔ `stabilizer_relators_hold`.  Sending the `i`-th new generator to the `i`-th returned
+    generator word respects every returned relator (each is a rewritten relator cycle, trivial in
+    `G`), so it defines a homomorphism from the presented group `⟨gens | srels⟩` to `G`, and its
+    image is the full stabiliser of the base row: the returned presentation maps **onto** the
+    stabiliser.  (That this map is injective — the Reidemeister–Schreier theorem for the code's
+    relator-driven elimination — is not proved; it is decided per input by the Spec.) -/
+theorem stabilizer_relators_hold (t : Tab) (n : Nat) (rels : List (List Int))
+    (hvalid : validTable t n rels [] = true) (base : Nat) (hb : base < t.size)
+    (gens srels : List (List Int))
+    (h : Stab.stabilizer base rels (Table.ofView n t) = .ok (gens, srels)) :
+    ∃ f : PresentedGroup (relSet gens.length srels) →* PresentedGroup (relSet n rels),
+      (∀ i : Fin gens.length, f (PresentedGroup.of i) = PresentedGroup.mk (relSet n rels) (wordElt n gens[i])) ∧
+      f.range = (MulAction.stabilizer (Equiv.Perm (Fin t.size)) (⟨base, hb⟩ : Fin t.size)).comap
+        (actionHom (valid_of_validTable hvalid)) :=
+  presentation_hom (complete_of_validTable hvalid) (valid_of_validTable hvalid) hb h
+
+/-- ✔ `stabilizer_total`.  On every table passing the Spec of C11 and every base row that is a row,
+    the model of `stabilizer` (after the repairs D13/D14) returns a result: no modelled panic
+    (`unwrap`, map indexing) and no exhausted fuel.  In particular `close_relations_in_place`
+    terminates: the number of edges without a word never grows and drops whenever an edge
+    without a word is popped; an edge is only queued while it has no word. -/
+theorem stabilizer_total (t : Tab) (n : Nat) (rels : List (List Int))
+    (hvalid : validTable t n rels [] = true) (base : Nat) (hb : base < t.size) :
+    ∃ gens srels, Stab.stabilizer base rels (Table.ofView n t) = .ok (gens, srels) :=
+  StabP.stabilizer_total (complete_of_validTable hvalid) (valid_of_validTable hvalid) hb
+
+/-- ✔ `intersection_total`: the model of `intersection_table` returns a table for every pair of
+    non-empty complete inverse-consistent tables (at most `rows·rows` rows are created). -/
+theorem intersection_total (ta tb : Tab) (n : Nat)
+    (hca : complete ta n = true) (hcb : complete tb n = true)
+    (hia : inverseConsistent ta n = true) (hib : inverseConsistent tb n = true)
+    (hta : 0 < ta.size) (htb : 0 < tb.size) :
+    ∃ T, Stab.intersectionTable (Table.ofView n ta) (Table.ofView n tb) = .ok T :=
+  intersectionTable_total hca hcb (inverseConsistent_spec hia) (inverseConsistent_spec hib) hta htb
+
+/-- ✔ `core_total`: the model of `core_table` returns a table for every complete
+    inverse-consistent table (at most `rows ^ rows` arrangements exist). -/
+theorem core_total (t : Tab) (n : Nat) (hc : complete t n = true) (hi : inverseConsistent t n = true) :
+    ∃ T, Stab.coreTable (Table.ofView n t) = .ok T :=
+  coreTable_total hc (inverseConsistent_spec hi)
+
+/-- non-vacuity of the hypothesis -/
+example : validTable s3Table 2 [[1, 1], [2, 2], [1, 2, 1, 2, 1, 2]] [] = true := by decide +kernel
 
 /-! non-vacuity: the model returns the three outputs pinned by `test_stabilizer` literally, and
     the stabilisers of rows 0 and 1 in `S3 / ⟨b⟩` -/
